@@ -1,5 +1,6 @@
 //! Exhaustive stand-in for C09 over a finite family of tables: every presence combination of the six
-//! optional attributes, each with an even- and an odd-length value (and odd/even mandatory UIDs), is built
+//! optional attributes, each with an even- and an odd-length value (private information also with bytes above 0x7F,
+//! empty, and all 256 byte values; odd/even mandatory UIDs), is built
 //! with the real builder, written with the real `FileMetaTable::write`, and (a) the recorded group length
 //! is compared with the number of bytes that follow the group length element in the written group,
 //! (b) the written group is read back with `FileMetaTable::from_reader` and compared with the table.
@@ -8,7 +9,8 @@ use dicom_object::meta::{FileMetaTable, FileMetaTableBuilder};
 fn main() {
     let (mut cases, mut bad) = (0u64, 0u64);
     let texts = [None, Some("AB"), Some("ABC")];
-    let blobs: [Option<Vec<u8>>; 3] = [None, Some(vec![1, 2]), Some(vec![1, 2, 3])];
+    // private information is binary (OB): bytes above 0x7F, NUL and an empty value included
+    let blobs: [Option<Vec<u8>>; 7] = [None, Some(vec![1, 2]), Some(vec![1, 2, 3]), Some(vec![0x80, 0xFF]), Some(vec![0x00, 0x7F, 0x80, 0xE9, 0xFF]), Some(vec![]), Some((0..=255u8).collect())];
     for sop in ["1.2.840.10008.5.1.4.1.1.1", "1.2.840.10008.5.1.4.1.1.20"] {
         for vn in texts { for src in texts { for snd in texts { for rcv in texts { for cre in [None, Some("1.2.3"), Some("1.2.34")] { for blob in &blobs {
             cases += 1;
